@@ -1277,6 +1277,9 @@ func (c *Context) RoundToIntegralExact(d, x *Decimal) (Condition, error) {
 
 // Ceil sets d to the smallest integer >= x.
 func (c *Context) Ceil(d, x *Decimal) (Condition, error) {
+	if set, res, err := c.toIntegralSpecials(d, x); set {
+		return res, err
+	}
 	var frac Decimal
 	x.Modf(d, &frac)
 	if frac.Sign() > 0 {
@@ -1287,6 +1290,9 @@ func (c *Context) Ceil(d, x *Decimal) (Condition, error) {
 
 // Floor sets d to the largest integer <= x.
 func (c *Context) Floor(d, x *Decimal) (Condition, error) {
+	if set, res, err := c.toIntegralSpecials(d, x); set {
+		return res, err
+	}
 	var frac Decimal
 	x.Modf(d, &frac)
 	if frac.Sign() < 0 {
